@@ -3,7 +3,7 @@ import itertools
 
 import numpy as np
 
-from symtt.core import scenario, HarnessError
+from symtt.core import scenario, HarnessError, SkipTV
 from symtt import dense as D
 from .common import free_policy, mk_cores, meta_ok
 from .C07 import frame
@@ -327,3 +327,69 @@ def power_method(ctx, shape, cplx, gevp, repeats):
     else:
         ctx.eq('reported eigenvalue == x^H A x (Rayleigh quotient of the unit-norm eigentensor)', ev, D._get(num, (0, 0)), tol=1e-7)
     ctx.eq('operator unchanged', D.as_matrix(A.full(), d), Ad)
+
+
+# ------------------------------------------ bounds, exact eigenpairs, inverse iteration (concrete only)
+@scenario('C08', 'ritz_bounds', lambda tier: [{'dims': dims, 'cplx': c, 'gevp': g} for dims in ([2, 2, 2], [3, 2]) for c in (False, True) for g in (False, True)])
+def ritz_bounds(ctx, dims, cplx, gevp):
+    """NOT a solver verdict (Courant-Fischer / convergence statements): on random Hermitian pencils the validation run checks the property's own
+    sentences numerically -- Rayleigh quotient and unit norm, eigenvalue <= largest eigenvalue of the pencil, exact dominant eigentensor as guess is
+    returned with its eigenvalue, maximal-rank guess gives the exact extremal pair, power_method from a maximal-rank guess converges to the pair
+    nearest sigma and reports its Rayleigh quotient"""
+    TT, evp, ttm = ctx.R.TT, ctx.R.evp, ctx.R.tt
+    if ctx.mode == 'tv':
+        raise SkipTV()
+    if ctx.sym:
+        ctx.held('eigenvalue bounds / exact pairs / inverse iteration are checked numerically by the validation run of this scenario (sampling, stated in the evidence)')
+        return
+    import scipy.linalg as sl
+    d = len(dims)
+    rng = np.random.RandomState(11 + 7 * d + (3 if cplx else 0) + (1 if gevp else 0))
+    rk = [1] + [2] * (d - 1) + [1]
+
+    def rand_op():
+        return TT([rng.randn(rk[i], dims[i], dims[i], rk[i + 1]) + (1j * rng.randn(rk[i], dims[i], dims[i], rk[i + 1]) if cplx else 0) for i in range(d)])
+    C = rand_op()
+    A = C + C.transpose(conjugate=True)
+    B = None
+    if gevp:
+        G = 0.4 * rand_op()
+        B = G.transpose(conjugate=True) @ G + ttm.eye(dims)
+    Ad = np.asarray(A.matricize())
+    Bd = np.eye(Ad.shape[0]) if B is None else np.asarray(B.matricize())
+    lam, V = sl.eigh(Ad, Bd)
+    rmax = [1] + [min(int(np.prod(dims[:i])), int(np.prod(dims[i:]))) for i in range(1, d)] + [1]
+
+    def rand_vec(r):
+        return TT([rng.randn(r[i], dims[i], 1, r[i + 1]) + (1j * rng.randn(r[i], dims[i], 1, r[i + 1]) if cplx else 0) for i in range(d)])
+
+    def rq(t):
+        x = np.asarray(t.matricize()).reshape(-1)
+        return float(np.real(np.vdot(x, Ad @ x) / np.vdot(x, Bd @ x))), x
+    kw = dict(operator_gevp=B, solver='eigh', real=not cplx)
+    # low-rank guess: Ritz value is a Rayleigh quotient and never above the largest eigenvalue
+    ev, x, _ = evp.als(A, rand_vec([1] + [1] * (d - 1) + [1]), repeats=3, **kw)
+    q, xv = rq(x)
+    ctx.eq('reported eigenvalue == (generalised) Rayleigh quotient of the returned eigentensor', float(np.real(ev)), q, tol=1e-8)
+    if not gevp:
+        ctx.eq('eigentensor has unit 2-norm (standard problem)', float(np.linalg.norm(xv)), 1.0, tol=1e-8)
+    ctx.check('eigenvalue <= largest eigenvalue of the pencil', float(np.real(ev)) <= lam[-1] + 1e-8 * max(1.0, abs(lam[-1])), detail='%.6f vs %.6f' % (float(np.real(ev)), lam[-1]))
+    # maximal ranks: exact extremal pair
+    ev2, x2, _ = evp.als(A, rand_vec(rmax), repeats=2, **kw)
+    ctx.eq('a guess of maximal ranks yields the exact extremal eigenvalue', float(np.real(ev2)), float(lam[-1]), tol=1e-7)
+    # exact dominant eigentensor as guess
+    vtop = V[:, -1]
+    guess = TT(vtop.reshape(dims + [1] * d))
+    ev3, x3, _ = evp.als(A, guess, repeats=1, **kw)
+    x3v = np.asarray(x3.matricize()).reshape(-1)
+    ov = abs(np.vdot(vtop, Bd @ x3v)) / np.sqrt(abs(np.vdot(vtop, Bd @ vtop)) * abs(np.vdot(x3v, Bd @ x3v)))
+    ctx.eq('an exact dominant eigentensor as initial guess is returned with its eigenvalue (up to phase)', np.array([float(np.real(ev3)), float(ov)]),
+           np.array([float(lam[-1]), 1.0]), tol=1e-7)
+    # inverse power iteration near an interior eigenvalue
+    k = len(lam) // 2
+    gap = min(lam[k] - lam[k - 1], lam[k + 1] - lam[k]) if 0 < k < len(lam) - 1 else 1.0
+    sigma = float(lam[k] + 0.05 * gap)
+    evp_, xp = evp.power_method(A, rand_vec(rmax), operator_gevp=B, repeats=40, sigma=sigma)
+    qp, _ = rq(xp)
+    ctx.eq('power_method reports the Rayleigh quotient of its eigentensor', float(np.real(evp_)), qp, tol=1e-8)
+    ctx.eq('power_method from a maximal-rank guess converges to the eigenvalue nearest its shift', float(np.real(evp_)), float(lam[k]), tol=1e-5)
